@@ -314,3 +314,25 @@ PROPS["C18"] = dict(
         dict(name="fuzz", fuzz="FuzzSafety", fuzztime=120),
     ],
 )
+
+PROPS["C14"] = dict(
+    pkg="c14", level="exploration",
+    technique="enumeration of a generated call-site table (one function per public entry point) x formats x logger kinds x skip counts x wrapper chains, compared with runtime.Callers at the issuing statement; rapid sampling of the same space; two builds (default and -gcflags=all=-l)",
+    claim=("For each of 64 entry points (11 verbs, their Context variants, Println/PrintlnContext, LogAttrs/Logit/Log, Infof/Warnf/Errorf, the "
+           "package-level functions and Context functions on the default logger, log/slog Logger.Info/Warn/InfoContext/Log/LogAttrs and package-level "
+           "log/slog functions on the adapter, log.Logger.Print/Printf/Println on the bridge), in three formats, on root/child/default loggers, "
+           "with skip 0..4 set by WithSkip or SetSkip and wrapper chains of depth skip or 4 (//go:noinline recursion, or small inlinable "
+           "functions), the decoded caller file/line/function must be those of the statement skip frames above the call, as recorded by the "
+           "harness with runtime.Callers on the preceding source line. The whole matrix (~23k cells) runs in every tier; the thorough tier "
+           "repeats it in a binary built without inlining."),
+    note="Expected file is slog.Safety(file) (C18 owns the path policy); colored mode prints the function without its package path. log.Logger.Output called directly, goroutine entry points, deferred calls and cgo callers are not built.",
+    rule=("matrix enumeration plus rapid sampling (privacy flags toggled). Non-trivial: skip >= 1, or an entry point that is not a method of the "
+          "logger (package-level, adapter, bridge); distinct = the cell."),
+    assumptions=["runtime.Callers / CallersFrames give the true logical frames (also for inlined functions)"],
+    stages=[
+        dict(name="matrix", run="^TestMatrix$", quick=1, thorough=1),
+        dict(name="sampled", run="^TestSampled$", quick=10000, thorough=300000, shards=8, timeout_thorough=3000),
+        dict(name="matrix-noinline", run="^TestMatrix$", tier="thorough", thorough=1, gcflags="all=-l"),
+        dict(name="sampled-noinline", run="^TestSampled$", tier="thorough", thorough=100000, shards=8, gcflags="all=-l"),
+    ],
+)
